@@ -18,6 +18,11 @@ LIKS = ["gaussian", "fixed", "fixed+learned"]
 BATCH = ["none", "model", "data"]
 PRIOR_KINDS = ["normal", "gamma", "lognormal", "smoothedbox"]
 PRIOR_SITES = ["lengthscale", "outputscale", "noise", "constant"]
+# extra sites (only used by the shared-prior cells): a second parameter of the *same* module
+EXTRA_SITES = ["alpha", "period_length", "task_noises"]
+# cfg["priors"] entries: [site, kind, a, b] or [site, kind, a, b, gid]; all registrations carrying the same `gid`
+# (within a model and — through the `shared` dict of build() — across the members of a model list) receive ONE Prior
+# *instance*; every registration still contributes its own log density to the objective.
 
 
 def random_cfg(rng, family=None, n_max=10):
@@ -158,7 +163,8 @@ def prior_logpdf(torch, kind, a, b, x):
     raise ValueError(kind)
 
 
-def build(cfg):
+def build(cfg, shared=None):
+    shared = {} if shared is None else shared
     import torch
     import gpytorch
     K, M, L, P = gpytorch.kernels, gpytorch.means, gpytorch.likelihoods, gpytorch.priors
@@ -229,9 +235,12 @@ def build(cfg):
         model = GP().double()
         lik.double()
         # ---- priors (registered after construction through the public API)
-        w.priors = []   # (site, kind, a, b, getter, owner-description)
+        w.priors = []   # one entry per *registration*: (site, kind, a, b, getter, owner-description)
         w.prior_objs = []
-        for site, kind, a, bb in cfg["priors"]:
+        w.prior_regs = []   # (id(module), local prior name) of every registration
+        for entry in cfg["priors"]:
+            site, kind, a, bb = entry[:4]
+            gid = entry[4] if len(entry) > 4 else None
             targets = []
             for name, mod in model.named_modules():
                 if site == "lengthscale" and getattr(mod, "has_lengthscale", False) and isinstance(mod, K.Kernel):
@@ -246,13 +255,24 @@ def build(cfg):
                     targets.append((name, mod, "task_noises"))
                 elif site == "constant" and isinstance(mod, M.ConstantMean):
                     targets.append((name, mod, "constant"))
+                elif site == "alpha" and isinstance(mod, K.RQKernel):
+                    targets.append((name, mod, "alpha"))
+                elif site == "period_length" and isinstance(mod, K.PeriodicKernel):
+                    targets.append((name, mod, "period_length"))
             for name, mod, attr in targets:
                 pname = f"{attr}_verif_prior"
                 if pname in mod._priors:
                     continue
-                prior_obj = _make_prior(P, kind, a, bb).double()
+                if gid is not None:
+                    key = (gid, kind, a, bb)
+                    if key not in shared:
+                        shared[key] = _make_prior(P, kind, a, bb).double()
+                    prior_obj = shared[key]
+                else:
+                    prior_obj = _make_prior(P, kind, a, bb).double()
                 mod.register_prior(pname, prior_obj, attr)
                 w.prior_objs.append(prior_obj)
+                w.prior_regs.append((id(mod), pname))
                 w.priors.append((site, kind, a, bb, (lambda m=mod, at=attr: getattr(m, at)), f"{name}.{attr}"))
         model.train()
         lik.train()
